@@ -537,6 +537,47 @@ def replay_underflow_mixed_batch(args):
     return True, "held"
 
 
+def ob_bdsk_rho_unbatched():
+    """birth-death skyline with several epochs, rates carrying a sample dimension and ONE unbatched sampling probability at the present (what a
+    configuration with a fixed rho and sampled rates gives): every sample equals the evaluation of its own slices with the same rho"""
+    def body():
+        import torchtree.evolution.bdsk as bd
+        t = lambda v: torch.tensor(v, dtype=torch.float64)
+        nh = t([0.0, 0.0, 0.0, 0.0, 2.0, 4.0, 5.0])
+        n = 0
+        for m_ in (2, 3):
+            lam = t([[3.0, 2.0, 2.5][:m_], [2.5, 1.5, 1.1][:m_]])
+            mu = t([[1.0, 0.7, 0.4][:m_], [0.9, 0.6, 0.8][:m_]])
+            psi = t([[0.5, 0.4, 0.3][:m_], [0.3, 0.2, 0.6][:m_]])
+            for rho in ([0.3], [0.0]):
+                for hb in (False, True):
+                    heights = nh.repeat(2, 1) if hb else nh
+                    try:
+                        got = bd.PiecewiseConstantBirthDeath(lam, mu, psi, rho=t(rho), origin=t([6.0]), survival=False).log_prob(heights).reshape(-1)
+                    except Exception:
+                        continue       # an unsupported combination that raises is accepted
+                    for s_ in range(2):
+                        want = float(bd.PiecewiseConstantBirthDeath(lam[s_], mu[s_], psi[s_], rho=t(rho), origin=t([6.0]), survival=False).log_prob(nh).reshape(-1)[0])
+                        n += 1
+                        x = float(got[s_])
+                        if not (x == x) or abs(x - want) > 1e-9 * abs(want):
+                            raise Refuted("BDSK with %d epochs, rates batched [2,%d], rho = %s unbatched, node heights %s: sample %d is %r in the batch and %r from its own slices" % (
+                                m_, m_, rho, "batched" if hb else "unbatched", s_, x, want), witness={"epochs": m_, "rho": rho, "sample": s_}, confirmed=True,
+                                replay={"kind": "custom", "contract": "C10", "func": "replay_bdsk_rho_unbatched", "args": {}})
+        if n == 0:
+            raise Undecided("every combination raised: nothing compared")
+        return {"backend": "concrete", "cases": n, "statement": "%d samples of BDSK batches with an unbatched rho equal the evaluation of their own slices" % n}
+    return Ob("C10.bdsk.rho_unbatched", "B", body, clause="result[s] is the result of the s-th slices when only the rates are batched (bounded)", funcs=FUNCS)
+
+
+def replay_bdsk_rho_unbatched(args):
+    try:
+        ob_bdsk_rho_unbatched().fn()
+    except Refuted as e:
+        return False, e.detail
+    return True, "held"
+
+
 def ob_scale_separated_batch():
     """samples of very different magnitude in one batch (root heights 3 ... 300 with the smooth-max node-height transform at k = 100, population
     sizes 1e-3 ... 1e3, Weibull shapes 0.05 ... 50): every sample equals its single-sample evaluation in floating point, i.e. nothing
@@ -761,6 +802,7 @@ def obligations(tier, seed):
     obs.append(ob_real_model_sample_shapes())
     obs.append(ob_bdsk_rho_zero_in_batch())
     obs.append(ob_scale_separated_batch())
+    obs.append(ob_bdsk_rho_unbatched())
     for ts_ in (False, True):
         obs.append(ob_underflow_mixed_batch(ts_))
     obs.append(ob_hierarchical_distribution())
